@@ -65,6 +65,17 @@ class Lib:
             self._subclasses[cls] = AppSession
         return self._subclasses[cls]
 
+    def klass_pinned(self, cls, pinned_params):
+        """an application subclass that always uses its own parameter set, whatever it is given"""
+        base = self.classes[cls]
+
+        class PinnedSession(base):
+            def __init__(self, *a, **kw):
+                kw["params"] = pinned_params
+                base.__init__(self, *a, **kw)
+        PinnedSession.__name__ = "Pinned" + base.__name__
+        return PinnedSession
+
     def activate(self):
         return _Activation(self)
 
